@@ -541,79 +541,123 @@ fn explore(sc: &Scenario, fx: &Arc<Fixture>, bound: Option<usize>, cap: u64, t0:
     (n, true)
 }
 
-pub fn check(prop: &str, tier: &str) -> i32 {
+/// Explores one scenario (in a child process: the lock observer is process-global, so
+/// scenarios are explored in parallel processes) and prints its result as one JSON line.
+pub fn scenario_main(idx: usize, tier: &str, budget: f64) -> i32 {
     let thorough = tier == "thorough";
-    let mut run = Run::new(prop, tier, "model_checking");
     set_lock_observer(Some(observer));
     std::panic::set_hook(Box::new(|_| {}));
     let fx = Arc::new(fixture());
-    let cap_secs: f64 = std::env::var("VERIF_CAP_SECS").ok().and_then(|s| s.parse().ok()).unwrap_or(if thorough { 900.0 } else { 50.0 });
-    let t0 = std::time::Instant::now();
-    let mut total = 0u64;
-    let mut per = vec![];
     let scs = scenarios(thorough);
-    for (si, sc) in scs.iter().enumerate() {
-        let mut orders = BTreeSet::new();
-        let mut max_points = 0;
-        let mut bad = None;
-        let mut completed_bound = None;
-        let mut unbounded = false;
-        let mut schedules = 0u64;
-        // share of the budget
-        let budget = cap_secs * (si as f64 + 1.0) / scs.len() as f64;
-        for bound in [Some(0usize), Some(1), Some(2), Some(3), None] {
-            let (n, done) = explore(sc, &fx, bound, 2_000_000, t0, budget, &mut orders, &mut max_points, &mut bad);
-            schedules = schedules.max(n);
-            total += n;
-            if bad.is_some() {
-                break;
-            }
-            if !done {
-                break;
-            }
-            match bound {
-                Some(b) => completed_bound = Some(b),
-                None => unbounded = true,
-            }
+    let sc = &scs[idx];
+    let t0 = std::time::Instant::now();
+    let mut orders = BTreeSet::new();
+    let mut max_points = 0;
+    let mut bad = None;
+    let mut completed_bound = None;
+    let mut unbounded = false;
+    let mut largest = 0u64;
+    let mut total = 0u64;
+    let bounds: Vec<Option<usize>> = if thorough { vec![Some(0), Some(1), Some(2), Some(3), None] } else { vec![Some(0), Some(1), Some(2), None] };
+    for bound in bounds {
+        let (n, done) = explore(sc, &fx, bound, 5_000_000, t0, budget, &mut orders, &mut max_points, &mut bad);
+        total += n;
+        if bad.is_some() || !done {
+            break;
         }
-        if let Some((c, m, choices)) = &bad {
-            run.report(None, c, &format!("{}: {m} [schedule {choices:?}]", sc.name), json!({"engine": "sched", "config": wire::NAME, "scenario": sc.name, "schedule": choices}));
-        }
-        // vacuity: at least two distinct orders of critical sections
-        if bad.is_none() && orders.len() < 2 {
-            machinery(&format!("scenario {} explored fewer than two critical-section orders", sc.name));
-        }
-        per.push(json!({"scenario": sc.name, "threads": sc.threads.iter().map(|t| format!("{t:?}")).collect::<Vec<_>>(), "schedules_in_largest_completed_search": schedules, "preemption_bound_completed": completed_bound, "unbounded_search_completed": unbounded, "distinct_critical_section_orders": orders.len(), "max_choice_points": max_points}));
-        if si < 3 {
-            run.sample(json!({"scenario": sc.name, "a_section_order": orders.iter().next()}));
+        largest = largest.max(n);
+        match bound {
+            Some(b) => completed_bound = Some(b),
+            None => unbounded = true,
         }
     }
     set_lock_observer(None);
     // supplementary free-running pass (SAMPLING): real threads, no scheduler
     let iters = if thorough { 300 } else { 40 };
     let mut free = 0u64;
-    for sc in &scs {
-        for _ in 0..iters {
-            let cc = Arc::new(Covercrypt::default());
-            let hs: Vec<_> = sc
-                .threads
-                .iter()
-                .map(|calls| {
-                    let (cc, fx, calls) = (cc.clone(), fx.clone(), calls.clone());
-                    std::thread::spawn(move || {
-                        let mut msk = MasterSecretKey::deserialize(&fx.msk_bytes).unwrap();
-                        let mut usk = UserSecretKey::deserialize(&fx.issued_usk).unwrap();
-                        calls.iter().map(|c| catch_unwind(AssertUnwindSafe(|| run_call(&cc, &fx, &mut msk, &mut usk, c))).unwrap_or_else(|_| Output::Failed(format!("{c:?} panicked")))).collect::<Vec<_>>()
-                    })
+    let mut free_bad: Option<(String, String)> = None;
+    for _ in 0..iters {
+        let cc = Arc::new(Covercrypt::default());
+        let hs: Vec<_> = sc
+            .threads
+            .iter()
+            .map(|calls| {
+                let (cc, fx, calls) = (cc.clone(), fx.clone(), calls.clone());
+                std::thread::spawn(move || {
+                    let mut msk = MasterSecretKey::deserialize(&fx.msk_bytes).unwrap();
+                    let mut usk = UserSecretKey::deserialize(&fx.issued_usk).unwrap();
+                    calls.iter().map(|c| catch_unwind(AssertUnwindSafe(|| run_call(&cc, &fx, &mut msk, &mut usk, c))).unwrap_or_else(|_| Output::Failed(format!("{c:?} panicked")))).collect::<Vec<_>>()
                 })
-                .collect();
-            let outs: Vec<Vec<Output>> = hs.into_iter().map(|h| h.join().unwrap_or_else(|_| vec![Output::Failed("thread panicked".into())])).collect();
-            free += 1;
-            if let Some((c, m)) = judge(&fx, &outs) {
-                run.report(None, &c, &format!("{} (free-running pass): {m}", sc.name), json!({"engine": "sched-free", "scenario": sc.name}));
-                break;
-            }
+            })
+            .collect();
+        let outs: Vec<Vec<Output>> = hs.into_iter().map(|h| h.join().unwrap_or_else(|_| vec![Output::Failed("thread panicked".into())])).collect();
+        free += 1;
+        if let Some(v) = judge(&fx, &outs) {
+            free_bad = Some(v);
+            break;
         }
+    }
+    let out = json!({
+        "scenario": sc.name,
+        "threads": sc.threads.iter().map(|t| format!("{t:?}")).collect::<Vec<_>>(),
+        "schedules_executed": total,
+        "schedules_in_largest_completed_search": largest,
+        "preemption_bound_completed": completed_bound,
+        "unbounded_search_completed": unbounded,
+        "distinct_critical_section_orders": orders.len(),
+        "a_section_order": orders.iter().next(),
+        "max_choice_points": max_points,
+        "free_running_executions": free,
+        "violation": bad.as_ref().map(|(c, m, ch)| json!({"clause": c, "message": m, "schedule": ch})),
+        "free_running_violation": free_bad.as_ref().map(|(c, m)| json!({"clause": c, "message": m})),
+    });
+    println!("SCENARIO-RESULT {}", out);
+    0
+}
+
+pub fn check(prop: &str, tier: &str) -> i32 {
+    let thorough = tier == "thorough";
+    let mut run = Run::new(prop, tier, "model_checking");
+    let cap_secs: f64 = std::env::var("VERIF_CAP_SECS").ok().and_then(|s| s.parse().ok()).unwrap_or(if thorough { 840.0 } else { 30.0 });
+    let scs = scenarios(thorough);
+    let exe = std::env::current_exe().unwrap_or_else(|e| machinery(&format!("current_exe: {e}")));
+    // one child process per scenario, all in parallel
+    let children: Vec<_> = (0..scs.len())
+        .map(|i| {
+            std::process::Command::new(&exe)
+                .args(["sched-scenario", &i.to_string(), tier, &cap_secs.to_string()])
+                .stdout(std::process::Stdio::piped())
+                .stderr(std::process::Stdio::null())
+                .spawn()
+                .unwrap_or_else(|e| machinery(&format!("cannot spawn scenario process: {e}")))
+        })
+        .collect();
+    let mut total = 0u64;
+    let mut free = 0u64;
+    let mut per = vec![];
+    for (i, c) in children.into_iter().enumerate() {
+        let out = c.wait_with_output().unwrap_or_else(|e| machinery(&format!("scenario process: {e}")));
+        let text = String::from_utf8_lossy(&out.stdout).to_string();
+        if let Some(m) = text.lines().find(|l| l.starts_with("MACHINERY-ERROR")) {
+            machinery(&format!("scenario {}: {m}", scs[i].name));
+        }
+        let Some(line) = text.lines().find(|l| l.starts_with("SCENARIO-RESULT ")) else { machinery(&format!("scenario {} produced no result (exit {:?})", scs[i].name, out.status.code())) };
+        let v: serde_json::Value = serde_json::from_str(&line["SCENARIO-RESULT ".len()..]).unwrap_or_else(|e| machinery(&format!("scenario result: {e}")));
+        total += v["schedules_executed"].as_u64().unwrap_or(0);
+        free += v["free_running_executions"].as_u64().unwrap_or(0);
+        if let Some(b) = v["violation"].as_object() {
+            let c = b["clause"].as_str().unwrap_or("C19.a");
+            run.report(None, c, &format!("{}: {} [schedule {}]", scs[i].name, b["message"].as_str().unwrap_or(""), b["schedule"]), json!({"engine": "sched", "config": wire::NAME, "scenario": scs[i].name, "schedule": b["schedule"]}));
+        } else if v["distinct_critical_section_orders"].as_u64().unwrap_or(0) < 2 {
+            machinery(&format!("scenario {} explored fewer than two critical-section orders", scs[i].name));
+        }
+        if let Some(b) = v["free_running_violation"].as_object() {
+            run.report(None, b["clause"].as_str().unwrap_or("C19.b"), &format!("{} (free-running pass): {}", scs[i].name, b["message"].as_str().unwrap_or("")), json!({"engine": "sched-free", "scenario": scs[i].name}));
+        }
+        if i < 3 {
+            run.sample(json!({"scenario": scs[i].name, "a_section_order": v["a_section_order"]}));
+        }
+        per.push(v);
     }
     run.set("states", json!(total));
     run.set("transitions", json!(total));
@@ -621,7 +665,7 @@ pub fn check(prop: &str, tier: &str) -> i32 {
     run.set("schedules_executed", json!(total));
     run.set("scenarios", json!(per));
     run.set("free_running_executions_sampling", json!(free));
-    run.set("rule", json!("every schedule is one complete execution of the scenario's real API calls on one shared Covercrypt under the controlled scheduler (scheduling points: thread start, before lock, right after acquisition, before try_lock); iterative preemption bounding 0,1,2,3 then unbounded; 'states'/'transitions' count executed schedules (stateless search); each complete interleaving is judged sequentially: liveness, per-call correctness against fixed keys, pairwise distinct freshness-bearing fields"));
+    run.set("rule", json!("every schedule is one complete execution of the scenario's real API calls on one shared Covercrypt under the controlled scheduler (scheduling points: thread start, before lock, right after acquisition, before try_lock); iterative preemption bounding 0,1,2(,3) then unbounded, one process per scenario; 'states'/'transitions' count executed schedules (stateless search); each complete interleaving is judged sequentially: liveness, per-call correctness against fixed keys, pairwise distinct freshness-bearing fields"));
     run.assume("only synchronisation routed through the lock seam is controlled; the free-running pass (sampling) is the backstop for anything else");
     run.assume("memory-ordering effects are irrelevant: the only synchronisation is one mutex; the crate has no unsafe code");
     run.finish()
